@@ -355,11 +355,10 @@ Definition requested_range (s : st) (bs es : option str) : option (Z * Z) :=
   | _, _ => None
   end.
 
-(* C06 for one request in one state: the frames written form the chain over the requested range of
-   already-sent numbers (nothing is written for a request that must not be answered); the whole
-   outbound journal - inside and outside the range -, the next outbound number (live and stored)
-   and the connection state are what they were. *)
-Definition resend_correct (f : row -> bool) (s : st) (bs es : option str) : Prop :=
+(* the property for the handler _process_resend alone (the property for the call site, which also
+   restores the state after an abort, is resend_correct below): the frames written form the chain over
+   the requested range; journal, counters and state are what they were. *)
+Definition handler_correct (f : row -> bool) (s : st) (bs es : option str) : Prop :=
   let s' := fst (process_resend f bs es s) in
   exists W, wire s' = wire s ++ W
     /\ match requested_range s bs es with
@@ -426,10 +425,10 @@ Lemma resend_partial f s bs es b0 b e0 :
   (cstate s = ST_ACTIVE \/ cstate s = ST_AWAITING) -> journal_ok s ->
   1 <= b <= nout s -> fits_int64 e0 = true -> (e0 = 0 \/ nout s - 1 <= e0 \/ b = nout s) ->
   rows_ok f b (recover b (if e0 =? 0 then sys_maxsize else e0) (rows s)) ->
-  resend_correct f s (Some bs) (Some es).
+  handler_correct f s (Some bs) (Some es).
 Proof.
   intros Hpb Hcl Hpe Hst Hj Hb He0 Hcov Hok.
-  unfold resend_correct, process_resend, requested_range. rewrite Hpb, Hpe. cbv zeta. rewrite Hcl.
+  unfold handler_correct, process_resend, requested_range. rewrite Hpb, Hpe. cbv zeta. rewrite Hcl.
   set (sa := if cstate s =? ST_AWAITING then s else state_set ST_HANDLING s).
   assert (Hsa : sending_ok sa /\ rows sa = rows s /\ nout sa = nout s /\ sout sa = sout s /\ wire sa = wire s
                 /\ (if cstate sa =? ST_AWAITING then cstate sa else ST_ACTIVE) = cstate s).
@@ -573,7 +572,7 @@ Lemma resend_partial_classes f s bs es b0 e0 :
   k_unparsable (Some bs) (Some es) = false ->
   k_begin_beyond s b = false -> k_bounded_end s b e0 = false ->
   k_row_carries_possdup_tags f s b e0 = false -> k_hole_before_replayed f s b e0 = false ->
-  resend_correct f s (Some bs) (Some es).
+  handler_correct f s (Some bs) (Some es).
 Proof.
   intros Hpb Hpe b Hst Hj Hnd Hu Hk2 Hk3 Hk4 Hk5.
   unfold k_unparsable in Hu. rewrite Hpb, Hpe in Hu. apply negb_false_iff, andb_true_iff in Hu as [Hfb Hfe].
@@ -601,7 +600,7 @@ Lemma resend_repeatable f s bs es b0 e0 f2 bs2 es2 c0 e2 :
   k_unparsable (Some bs2) (Some es2) = false ->
   k_begin_beyond s b2 = false -> k_bounded_end s b2 e2 = false ->
   k_row_carries_possdup_tags f2 s b2 e2 = false -> k_hole_before_replayed f2 s b2 e2 = false ->
-  resend_correct f2 s1 (Some bs2) (Some es2).
+  handler_correct f2 s1 (Some bs2) (Some es2).
 Proof.
   intros Hpb Hpe b Hst Hj Hnd Hu Hk2 Hk3 Hk4 Hk5 s1 Hpb2 Hpe2 b2 Hu2 Hq2 Hq3 Hq4 Hq5.
   destruct (resend_partial_classes f s bs es b0 e0 Hpb Hpe Hst Hj Hnd Hu Hk2 Hk3 Hk4 Hk5)
@@ -662,7 +661,7 @@ Qed.
 Lemma pristine_partial f s bs es b0 :
   py_int bs = Some b0 -> py_int es = Some 0 ->
   (cstate s = ST_ACTIVE \/ cstate s = ST_AWAITING) -> pristine s -> b0 <= nout s ->
-  resend_correct f s (Some bs) (Some es).
+  handler_correct f s (Some bs) (Some es).
 Proof.
   intros Hpb Hpe Hst (Hc & Hcl & Hlen & Hmax) Hb0. rewrite Forall_forall in Hcl.
   pose proof (contig_seqs _ _ Hc) as Hseqs.
@@ -799,187 +798,6 @@ Proof.
   rewrite Hc3, Hc2, Ec. reflexivity.
 Qed.
 
-(* ------------------------------------------------------------------ witnesses of the known findings *)
-
-Definition w_logon : row := mkRow 1 [65%N] (time_str 1) [([57; 56]%N, [48%N]); ([49; 48; 56]%N, [51; 48]%N)].
-Definition w_app (n : Z) : row := mkRow n [68%N] (time_str n) [([49; 49]%N, 99%N :: z_to_dec n); ([53; 53]%N, [83; 89; 77]%N)].
-Definition w_hb (n : Z) : row := mkRow n [48%N] (time_str n) [].
-Definition w_state (st0 nxt : Z) (rs : list row) : st := mkSt st0 false false nxt (nxt - 1) (nxt - 1) rs [] [] [].
-Definition w_all (r : row) : bool := true.
-Definition dec (z : Z) : option str := Some (z_to_dec z).
-
-(* the five class predicates of a request (b0 = int of tag 7, clamped like the code does), as a tuple *)
-Definition classes_of (f : row -> bool) (s : st) (bs es : option str) (b0 e0 : Z) :=
-  let b := clamp1 b0 in
-  (k_unparsable bs es, k_begin_beyond s b, k_bounded_end s b e0,
-   k_row_carries_possdup_tags f s b e0, k_hole_before_replayed f s b e0).
-
-Lemma chain_cons_inv J f lim a c fr rest : chain J f lim a c (fr :: rest) ->
-  r_seq fr = a /\ ((exists r, is_copy_of r fr /\ chain J f lim (a + 1) c rest)
-                   \/ (exists h, is_gap_fill fr a h /\ chain J f lim h c rest)).
-Proof.
-  inversion 1; subst.
-  - match goal with H : is_copy_of _ _ |- _ => pose proof H as (E & _) end. split; [lia|]. left. eauto.
-  - match goal with H : is_gap_fill _ _ _ |- _ => pose proof H as (E & _) end. split; [lia|]. right. eauto.
-Qed.
-
-(* bounded EndSeqNo: [Logon, D2, D3, D4], next 5, ResendRequest(2, 2): D2 is retransmitted, then
-   GapFill(3 -> 5) - numbers 3 and 4 were not asked for (the journal is no longer damaged) *)
-Definition w_bounded := w_state ST_ACTIVE 5 [w_logon; w_app 2; w_app 3; w_app 4].
-Lemma bounded_end_refuted :
-  pristine w_bounded
-  /\ classes_of w_all w_bounded (dec 2) (dec 2) 2 2 = (false, false, true, false, false)
-  /\ ~ resend_correct w_all w_bounded (dec 2) (dec 2)
-  /\ (let (s', x) := process_resend w_all (dec 2) (dec 2) w_bounded in
-      x = None /\ map r_seq (wire s') = [2; 3]
-      /\ map (fun r => get_tag T_NewSeqNo (r_body r)) (wire s') = [None; Some [53%N]]).
-Proof.
-  split. { unfold pristine. repeat split; try (vm_compute; congruence). repeat constructor. }
-  split; [vm_compute; reflexivity|]. split.
-  - intros (W & Hw & Hr & _).
-    assert (E : requested_range w_bounded (dec 2) (dec 2) = Some (2, 3)) by (vm_compute; reflexivity).
-    rewrite E in Hr. vm_compute in Hw. subst W.
-    apply chain_cons_inv in Hr as (_ & [(r & _ & Hch)|(h & (_ & Ht & _) & _)]).
-    + apply chain_empty in Hch. discriminate.
-    + vm_compute in Ht. discriminate.
-  - vm_compute. repeat split; reflexivity.
-Qed.
-
-(* a second request over an already replayed range is answered like the first (positive now) *)
-Definition w_first := w_state ST_ACTIVE 4 [w_logon; w_app 2; w_app 3].
-Definition w_second := fst (process_resend w_all (dec 2) (dec 0) w_first).
-Lemma second_request_ok :
-  pristine w_first /\ resend_correct w_all w_first (dec 2) (dec 0)
-  /\ rows w_second = rows w_first /\ nout w_second = 4
-  /\ resend_correct w_all w_second (dec 2) (dec 0)
-  /\ map r_seq (wire (fst (process_resend w_all (dec 2) (dec 0) w_second))) = [2; 3; 2; 3].
-Proof.
-  assert (Hp : pristine w_first).
-  { unfold pristine. repeat split; try (vm_compute; congruence). repeat constructor. }
-  assert (Hp2 : pristine w_second).
-  { unfold pristine. repeat split; try (vm_compute; congruence). repeat constructor. }
-  split; [exact Hp|]. split.
-  { apply (pristine_partial w_all w_first _ _ 2); try reflexivity; [left; reflexivity|exact Hp|vm_compute; congruence]. }
-  split; [reflexivity|]. split; [reflexivity|]. split; [|vm_compute; reflexivity].
-  apply (pristine_partial w_all w_second _ _ 2); try reflexivity; [left; reflexivity|exact Hp2|vm_compute; congruence].
-Qed.
-
-(* BeginSeqNo beyond next_num_out: AssertionError; the counters are no longer moved but the state is stuck *)
-Definition w_small := w_state ST_ACTIVE 3 [w_logon; w_app 2].
-Lemma begin_beyond_refuted :
-  pristine w_small
-  /\ classes_of w_all w_small (dec 5) (dec 0) 5 0 = (false, true, false, false, false)
-  /\ ~ resend_correct w_all w_small (dec 5) (dec 0)
-  /\ (let (s', x) := process_resend w_all (dec 5) (dec 0) w_small in
-      x = Some EAssertion /\ nout s' = 3 /\ sout s' = 2 /\ wire s' = [] /\ cstate s' = ST_HANDLING).
-Proof.
-  split. { unfold pristine. repeat split; try (vm_compute; congruence). repeat constructor. }
-  split; [vm_compute; reflexivity|]. split.
-  - intros (W & _ & _ & _ & _ & _ & Hc). vm_compute in Hc. discriminate.
-  - vm_compute. repeat split; reflexivity.
-Qed.
-
-(* BeginSeqNo <= 0 is answered exactly like BeginSeqNo = 1 (same frames, same state afterwards, and
-   it is the same request as far as the property is concerned) *)
-Lemma begin_nonpositive_as_one f s bs es b :
-  py_int bs = Some b -> b < 1 ->
-  process_resend f (Some bs) es s = process_resend f (dec 1) es s
-  /\ requested_range s (Some bs) es = requested_range s (dec 1) es
-  /\ (resend_correct f s (Some bs) es <-> resend_correct f s (dec 1) es).
-Proof.
-  intros Hpb Hb.
-  assert (E1 : process_resend f (Some bs) es s = process_resend f (dec 1) es s).
-  { unfold process_resend, dec. rewrite Hpb. change (py_int (z_to_dec 1)) with (Some 1).
-    replace (clamp1 b) with (clamp1 1); [reflexivity|]. unfold clamp1. destruct (b <? 1) eqn:E; [reflexivity|lia]. }
-  assert (E2 : requested_range s (Some bs) es = requested_range s (dec 1) es).
-  { unfold requested_range, dec. rewrite Hpb. change (py_int (z_to_dec 1)) with (Some 1).
-    replace (clamp1 b) with (clamp1 1); [reflexivity|]. unfold clamp1. destruct (b <? 1) eqn:E; [reflexivity|lia]. }
-  split; [exact E1|]. split; [exact E2|]. unfold resend_correct. rewrite E1, E2. tauto.
-Qed.
-
-(* concrete: ResendRequest(0, 0) and (-3, 0) over [Logon, D2] -> GapFill(1 -> 2), D2; state restored *)
-Lemma begin_nonpositive_example :
-  resend_correct w_all w_small (dec 0) (dec 0) /\ resend_correct w_all w_small (dec (-3)) (dec 0)
-  /\ (let (s', x) := process_resend w_all (dec (-3)) (dec 0) w_small in
-      x = None /\ map r_seq (wire s') = [1; 2] /\ map r_type (wire s') = [MT_SEQUENCERESET; [68%N]]
-      /\ cstate s' = ST_ACTIVE /\ nout s' = 3).
-Proof.
-  assert (Hp : pristine w_small).
-  { unfold pristine. repeat split; try (vm_compute; congruence). repeat constructor. }
-  split; [|split].
-  - apply (pristine_partial w_all w_small _ _ 0); try reflexivity; [left; reflexivity|exact Hp|vm_compute; congruence].
-  - apply (pristine_partial w_all w_small _ _ (-3)); try reflexivity; [left; reflexivity|exact Hp|vm_compute; congruence].
-  - vm_compute. repeat split; reflexivity.
-Qed.
-
-(* BeginSeqNo = "x": ValueError swallowed after the state switch *)
-Lemma unparsable_refuted :
-  k_unparsable (Some [120%N]) (dec 0) = true
-  /\ ~ resend_correct w_all w_small (Some [120%N]) (dec 0)
-  /\ (let (s', x) := process_resend w_all (Some [120%N]) (dec 0) w_small in
-      x = Some EValue /\ cstate s' = ST_HANDLING).
-Proof.
-  split; [vm_compute; reflexivity|]. split.
-  - intros (W & _ & _ & _ & _ & _ & Hc). vm_compute in Hc. discriminate.
-  - vm_compute. repeat split; reflexivity.
-Qed.
-
-(* D21: rows {1, 2, 4, 5}, next 6, ResendRequest(2, 0): the reply is 2, 4, 5 - number 3 is never covered *)
-Definition w_hole := w_state ST_ACTIVE 6 [w_logon; w_app 2; w_app 4; w_app 5].
-Lemma hole_refuted :
-  journal_ok w_hole /\ NoDup (map r_seq (rows w_hole))
-  /\ classes_of w_all w_hole (dec 2) (dec 0) 2 0 = (false, false, false, false, true)
-  /\ ~ resend_correct w_all w_hole (dec 2) (dec 0)
-  /\ (let (s', x) := process_resend w_all (dec 2) (dec 0) w_hole in
-      x = None /\ map r_seq (wire s') = [2; 4; 5] /\ map r_type (wire s') = [[68%N]; [68%N]; [68%N]]).
-Proof.
-  split. { unfold journal_ok. repeat split; try (vm_compute; congruence). repeat constructor; vm_compute; congruence. }
-  split. { vm_compute. repeat constructor; cbn; intuition congruence. }
-  split; [vm_compute; reflexivity|]. split.
-  - intros (W & Hw & Hr & _).
-    assert (E : requested_range w_hole (dec 2) (dec 0) = Some (2, 6)) by (vm_compute; reflexivity).
-    rewrite E in Hr. vm_compute in Hw. subst W.
-    apply chain_cons_inv in Hr as (_ & [(r & _ & Hch)|(h & (_ & Ht & _) & _)]).
-    + apply chain_cons_inv in Hch as (Hseq & _). vm_compute in Hseq. discriminate.
-    + vm_compute in Ht. discriminate.
-  - vm_compute. repeat split; reflexivity.
-Qed.
-
-(* an application message journaled with PossDupFlag=N in its body: the retransmission aborts with
-   DuplicatedTagError (replay_msg[43] = "Y" on an existing tag); nothing sent, state stuck *)
-Definition w_tagged := w_state ST_ACTIVE 3
-  [w_logon; mkRow 2 [68%N] (time_str 2) [([49; 49]%N, [99; 50]%N); (T_PossDupFlag, V_N)]].
-Lemma possdup_tag_refuted :
-  journal_ok w_tagged /\ NoDup (map r_seq (rows w_tagged))
-  /\ classes_of w_all w_tagged (dec 2) (dec 0) 2 0 = (false, false, false, true, false)
-  /\ ~ resend_correct w_all w_tagged (dec 2) (dec 0)
-  /\ (let (s', x) := process_resend w_all (dec 2) (dec 0) w_tagged in
-      x = Some EDuplicatedTag /\ wire s' = [] /\ cstate s' = ST_HANDLING).
-Proof.
-  split. { unfold journal_ok. repeat split; try (vm_compute; congruence). repeat constructor; vm_compute; congruence. }
-  split. { vm_compute. repeat constructor; cbn; intuition congruence. }
-  split; [vm_compute; reflexivity|]. split.
-  - intros (W & _ & _ & _ & _ & _ & Hc). vm_compute in Hc. discriminate.
-  - vm_compute. repeat split; reflexivity.
-Qed.
-
-(* non-vacuity of the partial theorem: a journal with every kind of slot, a declining filter, a
-   missing suffix; all hypotheses hold and the reply is 2, GapFill(3->5), 5, GapFill(6->9) *)
-Definition w_filter (r : row) : bool := negb (r_seq r =? 6).
-Definition w_rich := w_state ST_AWAITING 9 [w_logon; w_app 2; w_hb 3; mkRow 4 MT_SEQUENCERESET (time_str 4) [(T_NewSeqNo, [53%N])]; w_app 5; w_app 6; w_hb 7].
-Lemma nonvacuous :
-  journal_ok w_rich /\ NoDup (map r_seq (rows w_rich)) /\ cstate w_rich = ST_AWAITING
-  /\ classes_of w_filter w_rich (dec 2) (dec 0) 2 0 = (false, false, false, false, false)
-  /\ (let s' := fst (process_resend w_filter (dec 2) (dec 0) w_rich) in
-      map r_seq (wire s') = [2; 3; 5; 6] /\ map r_type (wire s') = [[68%N]; MT_SEQUENCERESET; [68%N]; MT_SEQUENCERESET]
-      /\ map (fun r => get_tag T_NewSeqNo (r_body r)) (wire s') = [None; Some [53%N]; None; Some [57%N]]
-      /\ rows s' = rows w_rich /\ nout s' = 9 /\ cstate s' = ST_AWAITING).
-Proof.
-  split. { unfold journal_ok. repeat split; try (vm_compute; congruence). repeat constructor; vm_compute; congruence. }
-  split. { vm_compute. repeat constructor; cbn; intuition congruence. }
-  split; [reflexivity|]. split; [vm_compute; reflexivity|]. vm_compute. repeat split; reflexivity.
-Qed.
-
 (* ------------------------------------------------------------------ numbers on the wire *)
 
 (* s' has written the frames W after s, all numbered lo or above *)
@@ -1075,4 +893,438 @@ Proof.
   assert (Hw03 : wext 1 s s3) by exact (wext_trans _ _ _ _ Hw (wext_trans _ _ _ _ Hw2 Hw3)).
   destruct (cstate s3 =? ST_AWAITING); [exact Hw03|].
   destruct Hw03 as (W & E & F). exists W. split; [exact E|exact F].
+Qed.
+
+
+(* ------------------------------------------------------------------ the call site (serve_resend) *)
+
+(* C06 for one request in one state, as the dispatcher serves it: the frames written form the chain
+   over the requested range of already-sent numbers (nothing is written for a request that must not
+   be answered or that asks for nothing that was sent); the whole outbound journal - inside and
+   outside the range -, the next outbound number (live and stored) and the connection state are what
+   they were. *)
+Definition resend_correct (f : row -> bool) (s : st) (bs es : option str) : Prop :=
+  let s' := fst (serve_resend f bs es s) in
+  exists W, wire s' = wire s ++ W
+    /\ match requested_range s bs es with
+       | Some (lo, hi) => chain (rows s) f hi lo hi W
+       | None => W = []
+       end
+    /\ rows s' = rows s /\ nout s' = nout s /\ sout s' = sout s /\ cstate s' = cstate s.
+
+Lemma serve_fields f bs es s :
+  let s0 := fst (process_resend f bs es s) in
+  let s' := fst (serve_resend f bs es s) in
+  wire s' = wire s0 /\ rows s' = rows s0 /\ nout s' = nout s0 /\ sout s' = sout s0
+  /\ cstate s' = (if cstate s0 =? ST_HANDLING then ST_ACTIVE else cstate s0)
+  /\ snd (serve_resend f bs es s) = snd (process_resend f bs es s).
+Proof.
+  unfold serve_resend. destruct (process_resend f bs es s) as [s0 x]. cbn [fst snd].
+  destruct (cstate s0 =? ST_HANDLING); cbn; auto 10.
+Qed.
+
+Lemma serve_id f bs es s :
+  cstate (fst (process_resend f bs es s)) <> ST_HANDLING -> serve_resend f bs es s = process_resend f bs es s.
+Proof.
+  unfold serve_resend. destruct (process_resend f bs es s) as [s0 x]. cbn [fst]. intros H.
+  destruct (cstate s0 =? ST_HANDLING) eqn:E; [lia|reflexivity].
+Qed.
+
+(* when the handler alone already satisfies the property, so does the call site (which then does nothing) *)
+Lemma handler_correct_lift f s bs es :
+  (cstate s = ST_ACTIVE \/ cstate s = ST_AWAITING) -> handler_correct f s bs es ->
+  resend_correct f s bs es /\ serve_resend f bs es s = process_resend f bs es s.
+Proof.
+  intros Hst H.
+  assert (Hne : cstate (fst (process_resend f bs es s)) <> ST_HANDLING).
+  { destruct H as (W & _ & _ & _ & _ & _ & Hc). rewrite Hc. destruct Hst as [-> | ->]; discriminate. }
+  pose proof (serve_id f bs es s Hne) as E. split; [|exact E].
+  unfold resend_correct. rewrite E. exact H.
+Qed.
+
+(* a request for which the handler sends nothing and aborts before / right after the range query *)
+Definition range_trivial (s : st) (bs es : option str) : Prop :=
+  requested_range s bs es = None \/ exists b, requested_range s bs es = Some (b, b).
+
+Lemma nothing_sent_correct f s bs es x :
+  (cstate s = ST_ACTIVE \/ cstate s = ST_AWAITING) ->
+  process_resend f bs es s = (if cstate s =? ST_AWAITING then s else state_set ST_HANDLING s, x) ->
+  range_trivial s bs es -> resend_correct f s bs es.
+Proof.
+  intros Hst E Hrng. unfold resend_correct, serve_resend. rewrite E.
+  exists []. rewrite app_nil_r.
+  assert (Hr : match requested_range s bs es with
+               | Some (lo, hi) => chain (rows s) f hi lo hi []
+               | None => @nil row = []
+               end).
+  { destruct Hrng as [-> | (b & ->)]; [reflexivity|constructor]. }
+  destruct Hst as [H|H]; rewrite H; cbn; rewrite ?H; auto 10.
+Qed.
+
+Lemma recover_none lo hi l : (forall r, In r l -> r_seq r < lo) -> recover lo hi l = [].
+Proof.
+  intros H. unfold recover. replace (filter _ l) with (@nil row); [reflexivity|].
+  symmetry. induction l as [|x l IH]; [reflexivity|]. cbn.
+  pose proof (H x (or_introl eq_refl)). destruct ((lo <=? r_seq x) && (r_seq x <=? hi)) eqn:E; [lia|].
+  apply IH. intros r Hr. apply H. right; exact Hr.
+Qed.
+
+(* the request as the handler reads it: (max(1, int(tag 7)), int(tag 16)); None when unreadable *)
+Definition parse_req (bs es : option str) : option (Z * Z) :=
+  match bs, es with
+  | Some bs, Some es =>
+      match py_int bs, py_int es with
+      | Some b0, Some e0 => Some (clamp1 b0, e0)
+      | _, _ => None
+      end
+  | _, _ => None
+  end.
+
+(* class predicates on the raw request: an unreadable request is in no class *)
+Definition in_class (k : Z -> Z -> bool) (bs es : option str) : bool :=
+  match parse_req bs es with Some (b, e0) => k b e0 | None => false end.
+
+(* EndSeqNo beyond 64 bits although something that was sent is asked for (sqlite3 cannot bind it) *)
+Definition k_end_beyond_64 (s : st) (b e0 : Z) : bool := (INT64_MAX <? e0) && (b <? nout s).
+
+(* an unreadable request (tag 7 / 16 absent or not an int() literal): nothing is sent, everything is
+   as before - the right outcome for an invalid request *)
+Lemma unreadable_correct f s bs es :
+  (cstate s = ST_ACTIVE \/ cstate s = ST_AWAITING) -> parse_req bs es = None -> resend_correct f s bs es.
+Proof.
+  intros Hst Hp.
+  assert (Hrng : range_trivial s bs es).
+  { left. unfold requested_range. unfold parse_req in Hp.
+    destruct bs as [bs|]; [|reflexivity]. destruct es as [es|]; [|reflexivity].
+    destruct (py_int bs); [|reflexivity]. destruct (py_int es); [discriminate|reflexivity]. }
+  unfold parse_req in Hp.
+  destruct bs as [bs|].
+  2:{ eapply nothing_sent_correct; [exact Hst|reflexivity|exact Hrng]. }
+  destruct (py_int bs) as [b0|] eqn:Eb.
+  2:{ eapply nothing_sent_correct; [exact Hst|unfold process_resend; rewrite Eb; reflexivity|exact Hrng]. }
+  destruct es as [es|].
+  2:{ eapply nothing_sent_correct; [exact Hst|unfold process_resend; rewrite Eb; reflexivity|exact Hrng]. }
+  destruct (py_int es) as [e0|] eqn:Ee; [discriminate|].
+  eapply nothing_sent_correct; [exact Hst|unfold process_resend; rewrite Eb, Ee; reflexivity|exact Hrng].
+Qed.
+
+(* the partial theorem over ALL requests: readable or not, any BeginSeqNo (below 1, beyond the last
+   sent number, beyond 64 bits), with exactly the negated class predicates as hypotheses *)
+Lemma resend_partial_total f s bs es :
+  (cstate s = ST_ACTIVE \/ cstate s = ST_AWAITING) ->
+  journal_ok s -> NoDup (map r_seq (rows s)) ->
+  in_class (k_end_beyond_64 s) bs es = false ->
+  in_class (k_bounded_end s) bs es = false ->
+  in_class (k_row_carries_possdup_tags f s) bs es = false ->
+  in_class (k_hole_before_replayed f s) bs es = false ->
+  resend_correct f s bs es.
+Proof.
+  intros Hst Hj Hnd H64 Hbd Hpd Hho. unfold in_class in *.
+  destruct (parse_req bs es) as [[b e0]|] eqn:Hp; [|exact (unreadable_correct f s bs es Hst Hp)].
+  unfold parse_req in Hp.
+  destruct bs as [bs|]; [|discriminate]. destruct es as [es|]; [|discriminate].
+  destruct (py_int bs) as [b0|] eqn:Eb; [|discriminate]. destruct (py_int es) as [e1|] eqn:Ee; [|discriminate].
+  injection Hp as Hb <-. 
+  assert (H1 : 1 <= b) by (subst b; unfold clamp1; destruct (b0 <? 1) eqn:E; lia).
+  pose proof Hj as (HJ & Hmax). rewrite Forall_forall in HJ.
+  unfold k_end_beyond_64 in H64. unfold k_bounded_end in Hbd.
+  (* what the property asks when nothing that was sent is requested *)
+  assert (Htriv : nout s <= b \/ (e1 <> 0 /\ e1 < b) -> range_trivial s (Some bs) (Some es)).
+  { intros Hc. unfold range_trivial, requested_range. rewrite Eb, Ee. cbv zeta. rewrite Hb.
+    destruct ((1 <=? b) && ((e1 =? 0) || (b <=? e1))) eqn:Hv; [|left; reflexivity].
+    right. exists b. f_equal. f_equal. destruct (e1 =? 0) eqn:E0; lia. }
+  assert (Hsa : forall x, process_resend f (Some bs) (Some es) s
+                          = (if cstate s =? ST_AWAITING then s else state_set ST_HANDLING s, x)
+                          -> nout s <= b \/ (e1 <> 0 /\ e1 < b) -> resend_correct f s (Some bs) (Some es)).
+  { intros x E Hc. exact (nothing_sent_correct f s _ _ x Hst E (Htriv Hc)). }
+  destruct (fits_int64 b && fits_int64 (eff_end e1)) eqn:Hfit.
+  - apply andb_true_iff in Hfit as [Hfb Hfe].
+    destruct (Z.leb_spec b (nout s)) as [Hle|Hgt].
+    + (* something may be asked for: the handler serves it *)
+      apply (handler_correct_lift f s _ _ Hst).
+      apply (resend_partial f s bs es b0 b e1 Eb Hb Ee Hst Hj); try lia.
+      * unfold eff_end in Hfe. destruct (e1 =? 0) eqn:E; [|exact Hfe]. replace e1 with 0 by lia. reflexivity.
+      * exact (classes_rows_ok f s b e1 Hnd Hpd Hho).
+    + (* BeginSeqNo beyond next_num_out: the range query is empty, the assertion aborts *)
+      apply (Hsa (Some EAssertion)); [|left; lia].
+      unfold process_resend. rewrite Eb, Ee, Hb.
+      set (sa := if cstate s =? ST_AWAITING then s else state_set ST_HANDLING s).
+      assert (Er : rows sa = rows s /\ nout sa = nout s) by (unfold sa; destruct (cstate s =? ST_AWAITING); auto).
+      destruct Er as [Er En].
+      unfold resend_body. fold (eff_end e1). rewrite Hfb, Hfe. cbn [andb negb].
+      rewrite recover_none by (rewrite Er; intros r Hr; destruct (HJ _ Hr); lia).
+      cbn [replay_loop]. rewrite En. destruct (b <=? nout s) eqn:E; [lia|]. reflexivity.
+  - (* a number beyond 64 bits: OverflowError before anything happens *)
+    apply (Hsa (Some EOverflow)).
+    + unfold process_resend. rewrite Eb, Ee, Hb. unfold resend_body. fold (eff_end e1). rewrite Hfit. reflexivity.
+    + apply andb_false_iff in Hfit. unfold fits_int64, eff_end, INT64_MIN in *.
+      assert (Hsm : sys_maxsize = INT64_MAX) by reflexivity.
+      destruct (e1 =? 0) eqn:E0; [rewrite Hsm in Hfit; unfold INT64_MAX in *; left; lia|].
+      unfold INT64_MAX in *. lia.
+Qed.
+
+(* For every state, journal, request and filter - no hypothesis at all: serving a ResendRequest never
+   changes the outbound journal, next_num_out or the stored counter; the only exceptions that can
+   reach the dispatcher are AssertionError, DuplicatedTagError, TagNotFoundError, ValueError,
+   OverflowError; the state afterwards is ACTIVE (RESENDREQ_AWAITING if it was), with or without an
+   exception; every frame written carries a MsgSeqNum of at least 1. *)
+Lemma serve_general f s bs es :
+  let (s', x) := serve_resend f bs es s in
+  rows s' = rows s /\ nout s' = nout s /\ sout s' = sout s
+  /\ allowed_exc x
+  /\ cstate s' = (if cstate s =? ST_AWAITING then ST_AWAITING else ST_ACTIVE)
+  /\ exists W, wire s' = wire s ++ W /\ Forall (fun fr => 1 <= r_seq fr) W.
+Proof.
+  pose proof (resend_general f s bs es) as H. pose proof (resend_wire_positive f s bs es) as Hw.
+  pose proof (serve_fields f bs es s) as Hf. cbv zeta in Hf.
+  destruct (serve_resend f bs es s) as [s' x']. destruct (process_resend f bs es s) as [s0 x].
+  cbn [fst snd] in *. destruct H as (Hr & Hn & Hso & Ha & Hc). destruct Hf as (Fw & Fr & Fn & Fso & Fc & Fx).
+  subst x'. rewrite Fr, Fn, Fso, Fw. repeat split; try assumption.
+  rewrite Fc, Hc. destruct (cstate s =? ST_AWAITING); [reflexivity|]. destruct x; reflexivity.
+Qed.
+
+(* in the two states in which a ResendRequest is served the state afterwards is the state before *)
+Lemma serve_state_restored f s bs es :
+  (cstate s = ST_ACTIVE \/ cstate s = ST_AWAITING) -> cstate (fst (serve_resend f bs es s)) = cstate s.
+Proof.
+  intros Hst. pose proof (serve_general f s bs es) as H.
+  destruct (serve_resend f bs es s) as [s' x]. cbn [fst]. destruct H as (_ & _ & _ & _ & Hc & _).
+  rewrite Hc. destruct Hst as [-> | ->]; reflexivity.
+Qed.
+
+(* answering a request leaves a state in which the hypotheses still hold *)
+Lemma serve_repeatable f s bs es f2 bs2 es2 :
+  (cstate s = ST_ACTIVE \/ cstate s = ST_AWAITING) ->
+  journal_ok s -> NoDup (map r_seq (rows s)) ->
+  let s1 := fst (serve_resend f bs es s) in
+  in_class (k_end_beyond_64 s) bs2 es2 = false ->
+  in_class (k_bounded_end s) bs2 es2 = false ->
+  in_class (k_row_carries_possdup_tags f2 s) bs2 es2 = false ->
+  in_class (k_hole_before_replayed f2 s) bs2 es2 = false ->
+  resend_correct f2 s1 bs2 es2.
+Proof.
+  intros Hst Hj Hnd s1 H1 H2 H3 H4.
+  pose proof (serve_general f s bs es) as H. pose proof (serve_state_restored f s bs es Hst) as Hc.
+  fold s1 in Hc. destruct (serve_resend f bs es s) as [s' x] eqn:E. cbn [fst] in s1. subst s1.
+  destruct H as (Hr & Hn & _).
+  apply resend_partial_total.
+  - rewrite Hc. exact Hst.
+  - unfold journal_ok. rewrite Hr, Hn. exact Hj.
+  - rewrite Hr. exact Hnd.
+  - unfold in_class, k_end_beyond_64 in *. rewrite Hn. exact H1.
+  - unfold in_class, k_bounded_end in *. rewrite Hn. exact H2.
+  - unfold in_class, k_row_carries_possdup_tags in *. rewrite Hr. exact H3.
+  - unfold in_class, k_hole_before_replayed in *. rewrite Hr. exact H4.
+Qed.
+
+Lemma pristine_total f s bs es b0 :
+  py_int bs = Some b0 -> py_int es = Some 0 ->
+  (cstate s = ST_ACTIVE \/ cstate s = ST_AWAITING) -> pristine s ->
+  resend_correct f s (Some bs) (Some es).
+Proof.
+  intros Hpb Hpe Hst (Hc & Hcl & Hlen & Hmax). rewrite Forall_forall in Hcl.
+  pose proof (contig_seqs _ _ Hc) as Hseqs.
+  apply resend_partial_total; try assumption; unfold in_class, parse_req; rewrite ?Hpb, ?Hpe.
+  - split; [|assumption]. apply Forall_forall. intros r Hr.
+    specialize (Hseqs _ Hr). destruct (Hcl _ Hr). split; [lia|assumption].
+  - exact (contig_nodup _ _ Hc).
+  - reflexivity.
+  - reflexivity.
+  - apply existsb_all_false. intros r Hr. destruct (Hcl _ Hr) as [-> _]. cbn. apply andb_false_r.
+  - assert (H1 : 1 <= clamp1 b0) by (unfold clamp1; destruct (b0 <? 1) eqn:E; lia).
+    apply existsb_all_false. intros r Hr. specialize (Hseqs _ Hr).
+    destruct (clamp1 b0 <? r_seq r) eqn:E; [|rewrite andb_false_r; reflexivity].
+    rewrite (contig_has _ _ Hc) by lia. apply andb_false_r.
+Qed.
+
+(* BeginSeqNo <= 0 is served exactly like BeginSeqNo = 1 *)
+Definition dec (z : Z) : option str := Some (z_to_dec z).
+
+Lemma begin_nonpositive_as_one f s bs es b :
+  py_int bs = Some b -> b < 1 ->
+  serve_resend f (Some bs) es s = serve_resend f (dec 1) es s
+  /\ requested_range s (Some bs) es = requested_range s (dec 1) es
+  /\ (resend_correct f s (Some bs) es <-> resend_correct f s (dec 1) es).
+Proof.
+  intros Hpb Hb.
+  assert (E0 : process_resend f (Some bs) es s = process_resend f (dec 1) es s).
+  { unfold process_resend, dec. rewrite Hpb. change (py_int (z_to_dec 1)) with (Some 1).
+    replace (clamp1 b) with (clamp1 1); [reflexivity|]. unfold clamp1. destruct (b <? 1) eqn:E; [reflexivity|lia]. }
+  assert (E1 : serve_resend f (Some bs) es s = serve_resend f (dec 1) es s) by (unfold serve_resend; rewrite E0; reflexivity).
+  assert (E2 : requested_range s (Some bs) es = requested_range s (dec 1) es).
+  { unfold requested_range, dec. rewrite Hpb. change (py_int (z_to_dec 1)) with (Some 1).
+    replace (clamp1 b) with (clamp1 1); [reflexivity|]. unfold clamp1. destruct (b <? 1) eqn:E; [reflexivity|lia]. }
+  split; [exact E1|]. split; [exact E2|]. unfold resend_correct. rewrite E1, E2. tauto.
+Qed.
+
+(* ------------------------------------------------------------------ witnesses *)
+
+Definition w_logon : row := mkRow 1 [65%N] (time_str 1) [([57; 56]%N, [48%N]); ([49; 48; 56]%N, [51; 48]%N)].
+Definition w_app (n : Z) : row := mkRow n [68%N] (time_str n) [([49; 49]%N, 99%N :: z_to_dec n); ([53; 53]%N, [83; 89; 77]%N)].
+Definition w_hb (n : Z) : row := mkRow n [48%N] (time_str n) [].
+Definition w_state (st0 nxt : Z) (rs : list row) : st := mkSt st0 false false nxt (nxt - 1) (nxt - 1) rs [] [] [].
+Definition w_all (r : row) : bool := true.
+
+(* the four class predicates of a request, as a tuple *)
+Definition classes_of (f : row -> bool) (s : st) (bs es : option str) :=
+  (in_class (k_end_beyond_64 s) bs es, in_class (k_bounded_end s) bs es,
+   in_class (k_row_carries_possdup_tags f s) bs es, in_class (k_hole_before_replayed f s) bs es).
+
+Lemma chain_cons_inv J f lim a c fr rest : chain J f lim a c (fr :: rest) ->
+  r_seq fr = a /\ ((exists r, is_copy_of r fr /\ chain J f lim (a + 1) c rest)
+                   \/ (exists h, is_gap_fill fr a h /\ chain J f lim h c rest)).
+Proof.
+  inversion 1; subst.
+  - match goal with H : is_copy_of _ _ |- _ => pose proof H as (E & _) end. split; [lia|]. left. eauto.
+  - match goal with H : is_gap_fill _ _ _ |- _ => pose proof H as (E & _) end. split; [lia|]. right. eauto.
+Qed.
+
+Lemma chain_nil_inv J f lim a c : chain J f lim a c [] -> a = c.
+Proof. inversion 1; reflexivity. Qed.
+
+Ltac prove_pristine := unfold pristine; repeat split; try (vm_compute; congruence); repeat constructor.
+Ltac prove_journal_ok := unfold journal_ok; repeat split; try (vm_compute; congruence); repeat constructor; vm_compute; congruence.
+
+(* bounded EndSeqNo: [Logon, D2, D3, D4], next 5, ResendRequest(2, 2): D2 is retransmitted, then
+   GapFill(3 -> 5) - numbers 3 and 4 were not asked for *)
+Definition w_bounded := w_state ST_ACTIVE 5 [w_logon; w_app 2; w_app 3; w_app 4].
+Lemma bounded_end_refuted :
+  pristine w_bounded
+  /\ classes_of w_all w_bounded (dec 2) (dec 2) = (false, true, false, false)
+  /\ ~ resend_correct w_all w_bounded (dec 2) (dec 2)
+  /\ (let (s', x) := serve_resend w_all (dec 2) (dec 2) w_bounded in
+      x = None /\ map r_seq (wire s') = [2; 3]
+      /\ map (fun r => get_tag T_NewSeqNo (r_body r)) (wire s') = [None; Some [53%N]]).
+Proof.
+  split; [prove_pristine|]. split; [vm_compute; reflexivity|]. split.
+  - intros (W & Hw & Hr & _).
+    assert (E : requested_range w_bounded (dec 2) (dec 2) = Some (2, 3)) by (vm_compute; reflexivity).
+    rewrite E in Hr. vm_compute in Hw. subst W.
+    apply chain_cons_inv in Hr as (_ & [(r & _ & Hch)|(h & (_ & Ht & _) & _)]).
+    + apply chain_empty in Hch. discriminate.
+    + vm_compute in Ht. discriminate.
+  - vm_compute. repeat split; reflexivity.
+Qed.
+
+(* a second request over an already replayed range is answered like the first *)
+Definition w_first := w_state ST_ACTIVE 4 [w_logon; w_app 2; w_app 3].
+Definition w_second := fst (serve_resend w_all (dec 2) (dec 0) w_first).
+Lemma second_request_ok :
+  pristine w_first /\ resend_correct w_all w_first (dec 2) (dec 0)
+  /\ rows w_second = rows w_first /\ nout w_second = 4
+  /\ resend_correct w_all w_second (dec 2) (dec 0)
+  /\ map r_seq (wire (fst (serve_resend w_all (dec 2) (dec 0) w_second))) = [2; 3; 2; 3].
+Proof.
+  assert (Hp : pristine w_first) by prove_pristine.
+  assert (Hp2 : pristine w_second) by prove_pristine.
+  split; [exact Hp|]. split.
+  { apply (pristine_total w_all w_first _ _ 2); try reflexivity; [left; reflexivity|exact Hp]. }
+  split; [reflexivity|]. split; [reflexivity|]. split; [|vm_compute; reflexivity].
+  apply (pristine_total w_all w_second _ _ 2); try reflexivity; [left; reflexivity|exact Hp2].
+Qed.
+
+(* requests that ask for nothing that was sent, or cannot be read: nothing is written, nothing changes,
+   the state is ACTIVE again although the handler aborted (were C06-begin-beyond, C06-request-unparsable) *)
+Definition w_small := w_state ST_ACTIVE 3 [w_logon; w_app 2].
+Lemma unanswerable_requests_ok :
+  resend_correct w_all w_small (dec 5) (dec 0)
+  /\ resend_correct w_all w_small (Some [120%N]) (dec 0)
+  /\ resend_correct w_all w_small None (dec 0)
+  /\ serve_resend w_all (dec 5) (dec 0) w_small
+     = (mkSt ST_ACTIVE false false 3 2 2 (rows w_small) [] [] [ST_HANDLING; ST_ACTIVE], Some EAssertion)
+  /\ serve_resend w_all (Some [120%N]) (dec 0) w_small
+     = (mkSt ST_ACTIVE false false 3 2 2 (rows w_small) [] [] [ST_HANDLING; ST_ACTIVE], Some EValue).
+Proof.
+  assert (Hp : pristine w_small) by prove_pristine.
+  split; [apply (pristine_total w_all w_small _ _ 5); try reflexivity; [left; reflexivity|exact Hp]|].
+  split; [apply unreadable_correct; [left; reflexivity|reflexivity]|].
+  split; [apply unreadable_correct; [left; reflexivity|reflexivity]|].
+  split; vm_compute; reflexivity.
+Qed.
+
+(* BeginSeqNo <= 0, concretely *)
+Lemma begin_nonpositive_example :
+  resend_correct w_all w_small (dec 0) (dec 0) /\ resend_correct w_all w_small (dec (-3)) (dec 0)
+  /\ (let (s', x) := serve_resend w_all (dec (-3)) (dec 0) w_small in
+      x = None /\ map r_seq (wire s') = [1; 2] /\ map r_type (wire s') = [MT_SEQUENCERESET; [68%N]]
+      /\ cstate s' = ST_ACTIVE /\ nout s' = 3).
+Proof.
+  assert (Hp : pristine w_small) by prove_pristine.
+  split; [|split].
+  - apply (pristine_total w_all w_small _ _ 0); try reflexivity; [left; reflexivity|exact Hp].
+  - apply (pristine_total w_all w_small _ _ (-3)); try reflexivity; [left; reflexivity|exact Hp].
+  - vm_compute. repeat split; reflexivity.
+Qed.
+
+(* EndSeqNo = 2^63 (a valid request for everything from 2): OverflowError from the range query, no answer *)
+Definition two63 : Z := 9223372036854775808.
+Lemma end_beyond_64_refuted :
+  pristine w_small
+  /\ classes_of w_all w_small (dec 2) (dec two63) = (true, false, false, false)
+  /\ ~ resend_correct w_all w_small (dec 2) (dec two63)
+  /\ (let (s', x) := serve_resend w_all (dec 2) (dec two63) w_small in
+      x = Some EOverflow /\ wire s' = [] /\ cstate s' = ST_ACTIVE).
+Proof.
+  split; [prove_pristine|]. split; [vm_compute; reflexivity|]. split.
+  - intros (W & Hw & Hr & _).
+    assert (E : requested_range w_small (dec 2) (dec two63) = Some (2, 3)) by (vm_compute; reflexivity).
+    rewrite E in Hr. vm_compute in Hw. subst W. apply chain_nil_inv in Hr. discriminate.
+  - vm_compute. repeat split; reflexivity.
+Qed.
+
+(* D21: rows {1, 2, 4, 5}, next 6, ResendRequest(2, 0): the reply is 2, 4, 5 - number 3 is never covered *)
+Definition w_hole := w_state ST_ACTIVE 6 [w_logon; w_app 2; w_app 4; w_app 5].
+Lemma hole_refuted :
+  journal_ok w_hole /\ NoDup (map r_seq (rows w_hole))
+  /\ classes_of w_all w_hole (dec 2) (dec 0) = (false, false, false, true)
+  /\ ~ resend_correct w_all w_hole (dec 2) (dec 0)
+  /\ (let (s', x) := serve_resend w_all (dec 2) (dec 0) w_hole in
+      x = None /\ map r_seq (wire s') = [2; 4; 5] /\ map r_type (wire s') = [[68%N]; [68%N]; [68%N]]).
+Proof.
+  split; [prove_journal_ok|].
+  split. { vm_compute. repeat constructor; cbn; intuition congruence. }
+  split; [vm_compute; reflexivity|]. split.
+  - intros (W & Hw & Hr & _).
+    assert (E : requested_range w_hole (dec 2) (dec 0) = Some (2, 6)) by (vm_compute; reflexivity).
+    rewrite E in Hr. vm_compute in Hw. subst W.
+    apply chain_cons_inv in Hr as (_ & [(r & _ & Hch)|(h & (_ & Ht & _) & _)]).
+    + apply chain_cons_inv in Hch as (Hseq & _). vm_compute in Hseq. discriminate.
+    + vm_compute in Ht. discriminate.
+  - vm_compute. repeat split; reflexivity.
+Qed.
+
+(* an application message journaled with PossDupFlag=N in its body cannot be retransmitted
+   (DuplicatedTagError): the request for it gets no answer; the state is ACTIVE again *)
+Definition w_tagged := w_state ST_ACTIVE 3
+  [w_logon; mkRow 2 [68%N] (time_str 2) [([49; 49]%N, [99; 50]%N); (T_PossDupFlag, V_N)]].
+Lemma possdup_tag_refuted :
+  journal_ok w_tagged /\ NoDup (map r_seq (rows w_tagged))
+  /\ classes_of w_all w_tagged (dec 2) (dec 0) = (false, false, true, false)
+  /\ ~ resend_correct w_all w_tagged (dec 2) (dec 0)
+  /\ (let (s', x) := serve_resend w_all (dec 2) (dec 0) w_tagged in
+      x = Some EDuplicatedTag /\ wire s' = [] /\ cstate s' = ST_ACTIVE).
+Proof.
+  split; [prove_journal_ok|].
+  split. { vm_compute. repeat constructor; cbn; intuition congruence. }
+  split; [vm_compute; reflexivity|]. split.
+  - intros (W & Hw & Hr & _).
+    assert (E : requested_range w_tagged (dec 2) (dec 0) = Some (2, 3)) by (vm_compute; reflexivity).
+    rewrite E in Hr. vm_compute in Hw. subst W. apply chain_nil_inv in Hr. discriminate.
+  - vm_compute. repeat split; reflexivity.
+Qed.
+
+(* non-vacuity of the partial theorem *)
+Definition w_filter (r : row) : bool := negb (r_seq r =? 6).
+Definition w_rich := w_state ST_AWAITING 9 [w_logon; w_app 2; w_hb 3; mkRow 4 MT_SEQUENCERESET (time_str 4) [(T_NewSeqNo, [53%N])]; w_app 5; w_app 6; w_hb 7].
+Lemma nonvacuous :
+  journal_ok w_rich /\ NoDup (map r_seq (rows w_rich)) /\ cstate w_rich = ST_AWAITING
+  /\ classes_of w_filter w_rich (dec 2) (dec 0) = (false, false, false, false)
+  /\ (let s' := fst (serve_resend w_filter (dec 2) (dec 0) w_rich) in
+      map r_seq (wire s') = [2; 3; 5; 6] /\ map r_type (wire s') = [[68%N]; MT_SEQUENCERESET; [68%N]; MT_SEQUENCERESET]
+      /\ map (fun r => get_tag T_NewSeqNo (r_body r)) (wire s') = [None; Some [53%N]; None; Some [57%N]]
+      /\ rows s' = rows w_rich /\ nout s' = 9 /\ cstate s' = ST_AWAITING).
+Proof.
+  split; [prove_journal_ok|].
+  split. { vm_compute. repeat constructor; cbn; intuition congruence. }
+  split; [reflexivity|]. split; [vm_compute; reflexivity|]. vm_compute. repeat split; reflexivity.
 Qed.
